@@ -1,4 +1,5 @@
 CONSTANTS
+  ALLSETUPS = TRUE
   MAXCUTS = 3
   STREAMS <- StreamsThorough
   TAILS <- TailsAll
